@@ -12,7 +12,7 @@ META = {
               "every count 1..999 for client and server sessions; S3: idle reclamation in coap_io_prepare_io_lkd for one server session "
               "in every state (ref 0..2, held message or not, last activity, clock, session_timeout 0..600 s, never-established).",
     "outside": "the uthash table itself (SESSIONS_FIND/ADD inside coap_endpoint_get_session: third-party macros, not encoded - the 1:1 "
-               "claim rests on key injectivity); eviction of the oldest idle session at max_idle_sessions; exactly-one session-new event; "
+               "claim rests on key injectivity); "
                "coap_free_context_lkd teardown with leak checking; holders' reference pairing is decided in C06/C07/C11 jobs (which run with "
                "coap_session_free replaced by a failing stub)",
     "assumptions": ["IPv4 sockaddr padding (sin_zero) is zero in both packets (the kernel zero-fills it)",
@@ -30,4 +30,7 @@ def jobs():
                   desc="reference/release: freed exactly at the last reference of a client session", bounds={"ref": "1..999"}))
     js.append(Job("S3-idle", "C12/c12.c", "c12_s3_idle", UNITS, extra_src=EXTRA, defines=CUT, remove_bodies=RB, unwind=18, flags=FS, est_gb=4, timeout=1500,
                   desc="idle server session reclaimed iff unreferenced and timed out; wait bounded by idle deadline", bounds={"sessions": 1}))
+    js.append(Job("S4-evict-oldest-idle", "C12/c12.c", "c12_s4_evict", UNITS, extra_src=EXTRA, defines=CUT, remove_bodies=RB, unwind=40, flags=FS, est_gb=4, timeout=1500,
+                  desc="datagram from a new peer with 3 server sessions in the real uthash table: oldest idle one reclaimed at max_idle_sessions",
+                  bounds={"sessions": 3, "max_idle_sessions": "0..4"}))
     return js
